@@ -1,4 +1,5 @@
 import PlushModel
+import PlushProofs.Lib.ParserWF
 /-!
   C04 — evaluation is total: the operator, index-read and index-write matrices of the model never reach
   a crash site, for EVERY combination of value kinds (case analysis over all constructors of `Val`,
@@ -85,5 +86,22 @@ theorem C04_userfn_too_few (fuel : Nat) (ps : List Ident) (body : Block) (args :
 example (s : ES) (items : Array Val) (a : Nat) (h : s.heap[a]? = some (.slice items)) :
     accessIndex (.list .any a) (.int (-1)) false s = (.err { kind := "index-out-of-bounds" }, s) := by
   simp [accessIndex, bind, heapSlice, EM.getS, h, pure, EM.fail, EM.throwErr]
+
+/-! ### The parser side of totality ("WFAst", proofs in `PlushProofs/Lib/ParserWF.lean`) -/
+
+/-- THE EVALUATOR IS NEVER HANDED A MISSING CHILD. The model's evaluator has exactly three places where Go
+    would dereference a nil AST child (`let` without a name, `for` without a block, an identifier without
+    segments). For EVERY source text: if parsing reports no syntax error — the only case in which the program is
+    evaluated — the program contains no such node, at any depth (`Stmts.bad = false`). Proof: a partial-correctness
+    calculus over the 20 mutually recursive parse functions shows that each of them only adds errors, and that a
+    result with such a node implies that an error was added. -/
+theorem C04_parser_never_yields_missing_child (src : Bytes) (prog : Program) (errs : Array PErr)
+    (h : parseBytes src = .ok (prog, errs)) (he : errs.size = 0) : Stmts.bad prog.stmts = false :=
+  parseBytes_no_bad_node src prog errs h he
+
+/-- non-vacuity of the notion: `let` without a name is "bad", a well-formed `let` is not -/
+example : Stmt.bad (.let_ zeroTok none none) = true ∧
+    Stmt.bad (.let_ zeroTok (some { tok := zeroTok, segs := [[120]] }) none) = false := by
+  constructor <;> simp [Stmt.bad, OExpr.bad, Ident.bad]
 
 end Plush
